@@ -634,7 +634,7 @@ func (i *Snapshot) readSegmentSnapshot(br *bufio.Reader) (bytesRead int64, ss *s
 
 	// read ver
 	verBuf := make([]byte, 4)
-	sz, err = br.Read(verBuf)
+	sz, err = io.ReadFull(br, verBuf)
 	if err != nil {
 		return bytesRead, nil, fmt.Errorf("error reading snapshot %d: %w", i.epoch, err)
 	}
